@@ -388,7 +388,7 @@ def events_of(k, sc, res):
 
 def generate(n, seed, *, tier="quick", maxrx=2, maxsteps=8, workdir=None):
     """n scenarios from spec/gen/Gen_Pipeline (TLC simulation, reproducible from the seed)."""
-    r = core.tlc_ok("gen/Gen_Pipeline", cfg="gen/Gen_Pipeline.cfg", simulate=n, depth=3 * maxsteps + 4, seed=seed,
+    r = core.tlc_ok("gen/Gen_Pipeline", cfg="gen/Gen_Pipeline.cfg", simulate=n, depth=3 * maxsteps + maxrx + 12, seed=seed,
                     env={"GEN_MAXRX": maxrx, "GEN_MAXSTEPS": maxsteps, "GEN_TIER": 0 if tier == "quick" else 1},
                     xmx="3g", timeout=600, workdir=workdir)
     scs = [s for s in r.printed_json() if isinstance(s, dict) and "steps" in s]
